@@ -535,7 +535,9 @@ func (tx *Tx) rotateActiveFile() error {
 		return err
 	}
 
-	if tx.db.opt.EntryIdxMode == HintBPTSparseIdxMode {
+	// A segment that holds no key/value record (only list, set or sorted-set records) has an empty
+	// tree: there is nothing to persist for it, and WriteNodes cannot walk a nil root.
+	if tx.db.opt.EntryIdxMode == HintBPTSparseIdxMode && tx.db.ActiveBPTreeIdx.root != nil {
 		tx.db.ActiveBPTreeIdx.Filepath = tx.db.getBPTPath(fID)
 		tx.db.ActiveBPTreeIdx.enabledKeyPosMap = true
 		tx.db.ActiveBPTreeIdx.SetKeyPosMap(tx.db.BPTreeKeyEntryPosMap)
@@ -561,7 +563,9 @@ func (tx *Tx) rotateActiveFile() error {
 		}
 
 		tx.db.BPTreeRootIdxes = append(tx.db.BPTreeRootIdxes, BPTreeRootIdx)
+	}
 
+	if tx.db.opt.EntryIdxMode == HintBPTSparseIdxMode {
 		// clear and reset BPTreeKeyEntryPosMap
 		tx.db.BPTreeKeyEntryPosMap = nil
 		tx.db.BPTreeKeyEntryPosMap = make(map[string]int64)
